@@ -1,0 +1,37 @@
+//go:build verif
+
+/*
+ * Verification exports for the skiplist: add-only, read-only helpers for the external
+ * verification harness. Compiled only with `-tags verif`.
+ */
+
+package skl
+
+// VerifNodeHeight returns the tower height of the node whose key is exactly key (0 if there is
+// no such node). The harness feeds the height randomHeight() chose into the model.
+func (s *Skiplist) VerifNodeHeight(key []byte) int {
+	n, eq := s.findNear(key, false, true)
+	if n == nil || !eq {
+		return 0
+	}
+	return int(n.height)
+}
+
+// VerifLevelKeys returns the keys of the nodes linked on one level, in list order.
+func (s *Skiplist) VerifLevelKeys(level int) [][]byte {
+	var out [][]byte
+	x := s.head
+	for {
+		x = s.getNext(x, level)
+		if x == nil {
+			return out
+		}
+		out = append(out, append([]byte{}, x.key(s.arena)...))
+	}
+}
+
+// VerifHeight is getHeight.
+func (s *Skiplist) VerifHeight() int { return int(s.getHeight()) }
+
+// VerifMaxHeight is the constant maxHeight.
+func VerifMaxHeight() int { return maxHeight }
